@@ -288,7 +288,7 @@ fn reduced_alphabet() -> Vec<char> {
     vec!['0', '5', '9', ';', '?', ' ', '>', '\x07', '\x0a', '\x0d', '$', '\x18', 'H', 'm', 'z', '\x1b', '\\', '\u{9c}', 'a', ']']
 }
 
-const PROBE: &str = "x\x1b[2;3Hy";
+pub const PROBE: &str = "x\x1b[2;3Hy\x1b[B\x1b[4l";
 
 fn word_hash(w: &str, utf8: bool) -> u64 {
     let mut h = std::collections::hash_map::DefaultHasher::new();
@@ -530,6 +530,37 @@ pub fn c03(c: &Collector, g: &mut Guard) {
     for cr in crashes {
         c.crash(format!("E1 family worker {} ended abnormally ({}), partition {:?}", cr.child, cr.how, cr.last_part));
     }
+    // (d) macro-words: sequences of complete control functions (incl. the ones that end
+    // without a dispatch), so that state leaking from one sequence into the next is seen
+    let mx = macro_alphabet_ext();
+    let mlen = if c.thorough() { 3 } else { 2 };
+    c.bound("macro_alphabet_size", json!(mx.len()));
+    c.bound("macro_word_length", json!(mlen));
+    let crashes = fork_map(c, mx.len(), Duration::from_secs(crate::explore::sweep_timeout_s()), |part, cc| {
+        let mut l = E1Local::new();
+        let mut stack: Vec<Vec<usize>> = vec![vec![part]];
+        while let Some(w) = stack.pop() {
+            let text: String = w.iter().map(|i| mx[*i]).collect::<Vec<_>>().join("");
+            for utf8 in [true, false] {
+                c03_word(cc, &text, utf8, &mut l, "E1.macro");
+            }
+            if w.len() < mlen {
+                for i in 0..mx.len() {
+                    let mut w2 = w.clone();
+                    w2.push(i);
+                    stack.push(w2);
+                }
+            }
+        }
+        cc.add_transitions(l.words);
+        cc.count("words", l.words);
+        cc.count("macro_words", l.words);
+        cc.count("words_d8_skipped", l.d8);
+        cc.outcomes(&l.outcomes);
+    });
+    for cr in crashes {
+        c.crash(format!("E1 macro worker {} ended abnormally ({}), partition {:?}", cr.child, cr.how, cr.last_part));
+    }
     // OSC payload family (events only; the Screen-level effect is C19)
     let payload_syms: Vec<&str> = vec!["a", ";", "\\", "]", " ", "\u{e9}", "\x01", "\n", "\x1ba", "\x1b["];
     let plen = if c.thorough() { 5 } else { 3 };
@@ -573,6 +604,7 @@ pub fn c03(c: &Collector, g: &mut Guard) {
     g.need(c, "words_ending_inside_a_sequence");
     g.need(c, "family_words");
     g.need(c, "osc_words");
+    g.need(c, "macro_words");
     let _ = word_hash;
 }
 
@@ -1061,7 +1093,8 @@ pub fn c11(c: &Collector, g: &mut Guard) {
 
 // =====================================================================  C02
 fn snap_sans_nothing(s: &Screen) -> Snap {
-    snap(s)
+    // implementation vs implementation: the stored strings themselves are compared
+    crate::snapshot::snap_raw(s)
 }
 
 fn chunk_diff(a: &Snap, b: &Snap) -> String {
@@ -1242,6 +1275,24 @@ pub fn macro_alphabet() -> Vec<&'static str> {
         "\x1b[38;5;196m", "\x1b[m", "\x1b]0;t\x07", "\x1b]2;u\x1b\\", "\x1b[3g", "\x1b[?25l", "\x1b(0", "\x0e", "\u{9b}5C",
         "\x1b[?3h", "\x1b%G", "\x1b[5$p", "\x1b[1;\n2H",
     ]
+}
+
+/// Sequences that end WITHOUT a dispatch, or through an unusual path, and so are the
+/// natural places for parser state (parameter list, private flag, intermediate
+/// flags) to leak into the next sequence.
+pub fn poison_sequences() -> Vec<&'static str> {
+    vec!["\x1b[5;1;8;20$z", "\x1b[3;\x18", "\x1b[?25$p", "\x1b#3", "\x1b[?7\x1a", "\x1b%@", "\x1b]Rx", "\x1b[?1;2z"]
+}
+
+/// Macro alphabet for multi-sequence words: complete control functions, the poison
+/// sequences, and a few sequences whose meaning depends on leaked state.
+pub fn macro_alphabet_ext() -> Vec<&'static str> {
+    let mut v = macro_alphabet();
+    v.extend(poison_sequences());
+    v.extend(["\x1b[4l", "\x1b[B", "\x1b[C", "\x1b[A", "\x1b[h", "\x1b[?5l", "\x1b(B", "\x1b)0", "\x1b]P1234567", "\x1b[25l", "\x1b[;H", "\x1b[d", "\x1b[G", "\x1b[J", "\x1b[X", "\x1b[P", "\x1b[g", "\x0f", "\x1b[1;2", "\x1b", "\x1b]0;x"]);
+    v.sort();
+    v.dedup();
+    v
 }
 
 pub fn c02(c: &Collector, g: &mut Guard) {
@@ -1428,7 +1479,7 @@ fn c02_sessions(c: &Collector) {
         };
         let start = Screen::new(80, 24);
         let single = match screen_after_bytes(&start, &[d.clone()], true) {
-            Ok(s) => snap(&s),
+            Ok(s) => crate::snapshot::snap_raw(&s),
             Err(m) => {
                 cc.violation(Violation {
                     property: "C02".into(),
@@ -1486,7 +1537,7 @@ fn session_verdict(c: &Collector, name: &str, single: &Snap, r: Result<Screen, S
     match r {
         Err(m) => c.violation(mk(format!("session|panic-chunked:{}", crate::judge::panic_class(&m)), format!("session {} {}: {}", name, how, m))),
         Ok(s) => {
-            let o = snap(&s);
+            let o = crate::snapshot::snap_raw(&s);
             if o != *single {
                 c.violation(mk("session|state-differs".into(), format!("session {} {}: {}", name, how, chunk_diff(single, &o))));
             }
